@@ -113,6 +113,38 @@ def run(ctx):
             ctx.broken.append("accepted call returned amplitudes differing from the Spec: %s" % json.dumps(d))
         elif not (code & 1):
             ctx.broken.append("outcome class differs from the model (Spec still met): %s" % json.dumps(d))
+    # ---- circuits: building validates every index of every gate variant; execution of a built circuit never panics ----
+    from . import c06
+    from .c02 import exact_unitaries
+    rng = ctx.rng
+    us = exact_unitaries(rng)
+    ccases = []
+    for n in (1, 2, 3, 4):
+        for _ in range(40 if not ctx.thorough() else 200):
+            L = rng.randrange(1, 7)
+            bad_at = rng.randrange(L) if rng.random() < 0.6 else None
+            gates = [c06.rand_any_gate(rng, n, us, bad=(k == bad_at)) for k in range(L)]
+            nm = sum(1 for g in gates if g["g"] == "meas")
+            ccases.append({"op": "circuit", "mode": "exec", "n": n, "cn": n if rng.random() < 0.8 else n + rng.choice([1, 2]), "v": rand_vec(rng, n, "normalised"),
+                           "gates": gates, "draws": [float2bits(0.37)] * nm, "split": 0, "thr": rng.choice([10, 1])})
+    cres = run_harness(ccases, nproc=8)
+    cst = {"built": 0, "build_err": 0, "exec_ok": 0, "exec_err": 0}
+    for c, r in zip(ccases, cres):
+        b = c06.brief(c)
+        in_range = all(q < c["cn"] for g in c["gates"] for q in sum(c06.targets_of(g), []))
+        if r.get("r") in ("panic", "crash"):
+            ctx.violations.append(("panic while building / executing a circuit: %s" % r.get("msg", r.get("stderr", "")), {"circuit_case": c, "brief": b}))
+        elif r.get("r") == "build_err":
+            cst["build_err"] += 1
+            if in_range: ctx.violations.append(("Circuit::with_gates rejected in-range gates: %s" % r.get("e"), {"circuit_case": c, "brief": b}))
+        elif r.get("r") == "ok":
+            cst["built"] += 1
+            if not in_range: ctx.violations.append(("Circuit::with_gates accepted a gate addressing a qubit outside the circuit", {"circuit_case": c, "brief": b}))
+            e = r["exec"]
+            cst["exec_ok" if e["r"] == "ok" else "exec_err"] += 1
+            if c["cn"] != c["n"] and e["r"] == "ok":
+                ctx.violations.append(("a circuit was executed on a state of a different width", {"circuit_case": c, "brief": b}))
+    stats["circuits"] = cst
     ctx.broken = ctx.broken[:5]
     by = {}
     for c, r in zip(cases, results):
@@ -127,6 +159,9 @@ def run(ctx):
 
 def replay(ctx, path):
     body = json.load(open(path))
+    if body["replay"].get("circuit_case"):
+        r = run_harness([body["replay"]["circuit_case"]])[0]
+        print(json.dumps({k: (v if k != "trace" else "...") for k, v in r.items() if k not in ("oracles", "readback")})[:600]); return 1
     case = body["replay"].get("case")
     if not case:
         print("replay file carries no concrete case:", body["what"]); return 1
